@@ -651,6 +651,17 @@ def run_kernels(ctx, conv, lines, cmp):
             radius = '%s %s' % (rng.choice(['0.01', '0.002', '.004', '0.0125']), rng.choice(['km', 'miles', 'ml']))
         else:
             radius = rng.choice([0, -1, 'abc', '3 yards', '', '1e2'])
+        if rng.random() < 0.12:
+            # cell sizes that are not exact binary fractions with a radius that is a whole number of cells
+            # (true division gives exactly k; floor division or truncation of a rounded quotient may give k-1)
+            c0 = rng.choice([0.1, 0.3048, 0.3, 0.7, 1.1, 0.2])
+            cx = c0
+            cy = c0 if rng.random() < 0.6 else rng.choice([0.1, 0.3048, 0.3, 0.7, 1.1, 0.2])
+            kq = rng.randint(1, 12)
+            if c0 == 0.3048 and rng.random() < 0.5:
+                radius = '%d%s' % (kq, rng.choice(['ft', ' ft', 'feet']))
+            else:
+                radius = float(repr(kq * c0)) if rng.random() < 0.5 else round(kq * c0, 4)
         rs = str(radius)
         exp = dist_oracle(rs, units_tbl, default_unit)
         if exp[0] == 'ok':
